@@ -151,6 +151,7 @@ type Exec struct {
 	skipPhis      bool
 	pathUnknown   bool
 	auxVars       []*Term
+	asciiKnown    map[*Term]bool
 	rawInit       bool
 	deadline      time.Time
 	blockTicks    int
